@@ -176,6 +176,35 @@ def oracle(seed, tier):
                 bad("'random number seed' in the file does not override the constructor seed")
         if len(samples) < 2 and hit:
             samples.append({"world": w, "query": qs[0] % "a", "answer": A[0][:160]})
+    # ---- a slab / fault whose neighbouring section has NO grains model for the composition: between the two coordinates the random orientation is blended with what the other
+    # section leaves in place
+    for kind in ("subducting plate", "fault"):
+        dk = "fault center" if kind == "fault" else "slab top"
+        gm = {"model": "random uniform distribution", "compositions": [0], "grain sizes": [0.5], "normalize grain sizes": [False], "max distance " + dk: 100e3}
+        if kind == "fault":
+            gm["min distance " + dk] = -100e3
+        seg = {"length": 300e3, "thickness": [100e3], "angle": [45 if kind != "fault" else 90]}
+        w = {"version": "1.1", "features": [{"model": kind, "name": "s", "coordinates": [[0, -300e3], [0, 300e3]], "dip point": [1e6, 0], "segments": [dict(seg, **{"grains models": [gm]})],
+                                             "sections": [{"coordinate": 1, "segments": [dict(seg, **{"grains models": []})]}]}]}
+        path = os.path.join(wdir, "blend_%s.wb" % kind.split()[0])
+        json.dump(w, open(path, "w"))
+        d = 100e3
+        x = (d - 30e3) if kind != "fault" else 10e3
+        lines = ["world w %s 3" % path] + [q3("w", [x, y, 1000e3 - d], d, [(3, 0, 1), (4, 0, 0)]) for y in (-200e3, 0.0, 150e3)]
+        rc, out, err = proto.run_harness(lines)
+        if rc != 0 or len(out) != len(lines) or out[0] != "ok":
+            viol.append({"what": "library failed on the section-without-grains world (%s)" % kind, "world_json": w}); continue
+        for o, cmd in zip(out[1:], lines[1:]):
+            a = parse_answer(o)
+            cases += 1
+            if a[0] != "ok" or a[1][-1] == -1.0:
+                continue
+            size, m = a[1][0], a[1][1:10]
+            mmT = [sum(m[3 * r + t] * m[3 * s + t] for t in range(3)) for r in range(3) for s in range(3)]
+            if abs(size - 0.5) > 1e-12 or any(abs(mmT[j] - (1.0 if j in (0, 4, 8) else 0.0)) > 1e-9 for j in range(9)) or abs(det3(m) - 1.0) > 1e-9:
+                viol.append({"what": "%s / random uniform distribution at one coordinate, no grains model at the next: between them the fixed grain size 0.5 is returned as %r and the orientation has "
+                                     "determinant %r (not a rotation)" % (kind, size, det3(m)), "world_json": w, "world": path, "cmd": cmd, "probe": "line-grains-blended-with-section-without-grains"})
+                break
     return {"violations": trim_violations(viol, 20), "summary": {"cases": cases, "violations": len(viol), "nontrivial": nontriv, "input_distribution": dist}, "samples": samples}
 
 
